@@ -1,4 +1,4 @@
-(* Proofs/C05_rt.v -- C05, concurrency: the REAL-TIME SANDWICH over all schedules (lmachine, no reset).
+(* Proofs/C05_rt.v -- C05, concurrency: the REAL-TIME SANDWICH over all schedules (lmachine, MinResetDuration = 0: the reset code is never entered, C05_conc.NoR).
    Every completed Write w counted a multiset E of observed values with MUST(w) <= E <= MAY(w) (as multisets of values):
    MUST = Done hist (c_inv w): values of the Observe calls that had returned when w was invoked;
    MAY  = Ub c (c_res w): values of the Observe calls (finished or still running) invoked before w returned.
@@ -25,7 +25,7 @@ Proof. intros S. apply (sub_perm A A (B ++ X) (X ++ B)); [reflexivity|apply Perm
 Lemma sub_self_app A X : sub A (A ++ X). Proof. exists X. reflexivity. Qed.
 
 (* ---- calls, times ---- *)
-Definition opv (o : nop) : list f64 := match o with NObserve v => [v] | NWrite => [] end.
+Definition opv (o : nop) : list f64 := match o with NObserve v => [v] | _ => [] end.
 Definition kv (k : call LM) : list f64 := opv (c_op k).
 Definition HV (hs : list (call LM)) : list f64 := flat_map kv hs.
 Definition HVb (hs : list (call LM)) (tau : Z) : list f64 := flat_map (fun k => if c_inv k <? tau then kv k else []) hs.
@@ -88,7 +88,7 @@ Qed.
 
 (* times: a running call was invoked no later than now, strictly earlier once it has taken a step *)
 Definition is_start (o : nop) (pc : npcL) : bool :=
-  match o, pc with NObserve _, oTicket _ _ => true | NWrite, wLock _ => true | _, _ => false end.
+  match o, pc with NObserve _, oTicket _ _ => true | NWrite, wLock _ => true | NFire, fCheck _ => true | NAdvance _, cAdv _ _ => true | _, _ => false end.
 Definition InvT (c : Conc.config LM) : Prop :=
   (forall t o pc inv, In t (thr c) -> t_cur t = Some (o, pc, inv) -> inv <= now c /\ (is_start o pc = false -> inv < now c)) /\
   (forall k, In k (Conc.hist c) -> c_inv k < c_res k <= now c) /\
@@ -96,9 +96,10 @@ Definition InvT (c : Conc.config LM) : Prop :=
 
 Lemma next_thread_cur todo idx time o pc inv : t_cur (next_thread todo idx time) = Some (o, pc, inv) ->
   inv = time /\ pc = start_pc o /\ is_start o pc = true.
-Proof. destruct todo as [|[v|] rest]; cbn; intros E; inversion E; subst; repeat split; reflexivity. Qed.
+Proof. destruct todo as [|[v| | |d] rest]; cbn; intros E; inversion E; subst; repeat split; reflexivity. Qed.
 
-Definition startpc (p : npcL) : bool := match p with oTicket _ _ | wLock _ => true | _ => false end.
+Definition startpc (p : npcL) : bool := match p with oTicket _ _ | wLock _ | fCheck _ | cAdv _ _ => true | _ => false end.
+Lemma sp_r rk ph x neg ks : startpc (r_next VC rk ph x neg ks) = false. Proof. destruct ks, neg, ph, rk; reflexivity. Qed.
 Lemma sp_e ph c neg ks : startpc (e_next VC ph c neg ks) = false. Proof. destruct ks, neg, ph; reflexivity. Qed.
 Lemma sp_m k c neg r ks : startpc (m_next VC k c neg r ks) = false. Proof. destruct ks, neg, k; reflexivity. Qed.
 Lemma sp_ma k c neg r kk ks : startpc (m_added VC k c neg r kk ks) = false. Proof. destruct k; cbn [m_added]; try reflexivity; apply sp_m. Qed.
@@ -111,18 +112,18 @@ Proof.
     repeat match goal with
            | H : context [if ?c then _ else _] |- _ => destruct c
            | H : context [match ?x with _ => _ end] |- _ =>
-               lazymatch type of x with list _ => destruct x | option _ => destruct x | mctx => destruct x | ephase => destruct x end
+               lazymatch type of x with list _ => destruct x | option _ => destruct x | mctx => destruct x | ephase => destruct x | rctx => destruct x | rphase => destruct x end
            end; try discriminate; inversion Hs; subst; clear Hs;
-    rewrite ?sp_e, ?sp_m, ?sp_ma, ?sp_w, ?sp_ac, ?sp_aa; try reflexivity;
+    rewrite ?sp_e, ?sp_m, ?sp_ma, ?sp_w, ?sp_ac, ?sp_aa, ?sp_r; try reflexivity; unfold r_after;
     repeat match goal with |- context [if ?b then _ else _] => destruct b | |- context [match ?x with _ => _ end] => destruct x end; reflexivity.
 Qed.
 Lemma is_start_startpc o p : startpc p = false -> is_start o p = false.
 Proof. destruct o, p; try reflexivity; discriminate. Qed.
 
-Lemma InvT_step c tid c' : InvT c -> sched_step LM c tid = Some c' -> InvT c'.
+Lemma InvT_step c tid c' : NoR c -> InvT c -> sched_step LM c tid = Some c' -> InvT c'.
 Proof.
-  intros (T1 & T2 & T3) St. destruct (sched_step_L2 c tid c' St) as (t & o & pc & inv & h' & nxt & Hi & Hc & Hs & Esh & En & Et & Eh).
-  pose proof (nth_error_In _ _ Hi) as Hin. destruct (T1 t o pc inv Hin Hc) as [A B]. pose proof (cnt_step _ _ _ _ Hs) as CE.
+  intros [_ NT] (T1 & T2 & T3) St. destruct (sched_step_L2 c tid c' St) as (t & o & pc & inv & h' & nxt & Hi & Hc & Hs & Esh & En & Et & Eh).
+  pose proof (nth_error_In _ _ Hi) as Hin. destruct (T1 t o pc inv Hin Hc) as [A B]. pose proof (cnt_step _ _ _ _ Hs (NT t o pc inv Hin Hc)) as CE.
   split; [|split].
   - intros t2 o2 pc2 inv2 Hin2 Hc2. rewrite Et in Hin2. apply In_nth_error in Hin2. destruct Hin2 as [j Hj]. rewrite En.
     destruct (nth_error_set_nth_inv _ _ _ _ _ Hj) as [[-> ->]|[Nj Hj']].
@@ -140,11 +141,11 @@ Proof.
       * destruct CE as (_ & _ & CE). left. exact CE.
       * destruct CE as (_ & _ & kk & rr & E). inversion E. left. reflexivity.
       * left. clear - Hs. stepin Hs. inversion Hs. reflexivity.
-    + destruct (next_thread_cur _ _ _ _ _ _ Hc2) as (_ & -> & _). destruct o2; [right|left]; reflexivity.
+    + destruct (next_thread_cur _ _ _ _ _ _ Hc2) as (_ & -> & _). destruct o2; [right|left|left|left]; reflexivity.
 Qed.
 
 Lemma cvb_next tau todo idx time : tau <= time -> cvb tau (next_thread todo idx time) = [].
-Proof. intros L. destruct todo as [|[v|] rest]; unfold cvb; cbn [next_thread t_cur]; try reflexivity; destruct (Z.ltb_spec time tau); try lia; reflexivity. Qed.
+Proof. intros L. destruct todo as [|[v| | |d] rest]; unfold cvb; cbn [next_thread t_cur]; try reflexivity; destruct (Z.ltb_spec time tau); try lia; reflexivity. Qed.
 Lemma Ub_step c tid c' tau : tau <= now c -> sched_step LM c tid = Some c' -> Permutation (Ub c' tau) (Ub c tau).
 Proof.
   intros L St. destruct (sched_step_L2 c tid c' St) as (t & o & pc & inv & h' & nxt & Hi & Hc & Hs & Esh & En & Et & Eh).
@@ -168,15 +169,15 @@ Definition PCV (T : list (thread LM)) : list f64 := concat (map pcv T).
 Definition InvX (c : Conc.config LM) : Prop :=
   Permutation (cntv (gs (sh c) false) ++ cntv (gs (sh c) true)) (HV (Conc.hist c) ++ PCV (thr c) ++ DUP (sh c) (thr c)).
 Lemma pcv_next todo idx time : pcv (next_thread todo idx time) = [].
-Proof. destruct todo as [|[v|] rest]; reflexivity. Qed.
+Proof. destruct todo as [|[v| | |d] rest]; reflexivity. Qed.
 
 Lemma PCV_set T i t t' : nth_error T i = Some t -> Permutation (pcv t ++ PCV (set_nth T i t')) (pcv t' ++ PCV T).
 Proof. intros H. apply (concat_set_nth pcv T i t t' H). Qed.
 
-Lemma InvX_step c tid c' : Inv c -> InvT c -> InvX c -> sched_step LM c tid = Some c' -> InvX c'.
+Lemma InvX_step c tid c' : NoR c -> Inv c -> InvT c -> InvX c -> sched_step LM c tid = Some c' -> InvX c'.
 Proof.
-  intros IV (_ & _ & T3) V St. destruct (sched_step_L2 c tid c' St) as (t & o & pc & inv & h' & nxt & Hi & Hc & Hs & Esh & En & Et & Eh).
-  pose proof (tpc_cur t o pc inv Hc) as Ht. pose proof (cnt_step _ _ _ _ Hs) as CE.
+  intros [_ NT] IV (_ & _ & T3) V St. destruct (sched_step_L2 c tid c' St) as (t & o & pc & inv & h' & nxt & Hi & Hc & Hs & Esh & En & Et & Eh).
+  pose proof (tpc_cur t o pc inv Hc) as Ht. pose proof (cnt_step _ _ _ _ Hs (NT t o pc inv (nth_error_In _ _ Hi) Hc)) as CE.
   specialize (T3 t o pc inv (nth_error_In _ _ Hi) Hc).
   unfold InvX in *. rewrite Esh, Et, Eh, HV_app.
   set (t' := match nxt with inl l' => mkThread LM (t_todo t) (Some (o, l', inv)) (t_idx t) | inr _ => next_thread (t_todo t) (t_idx t + 1) (now c + 1) end) in *.
@@ -188,7 +189,7 @@ Proof.
   { destruct nxt as [p9|r9]; [reflexivity|]. unfold HV. cbn [flat_map]. rewrite app_nil_r. reflexivity. }
   rewrite Hk. clear Hk.
   assert (Dt' : forall hh, dupx hh (tpc t') = match nxt with inl p9 => dupx hh (Some p9) | inr _ => [] end).
-  { intros hh. unfold t'. destruct nxt as [p9|r9]; [reflexivity|]. destruct (t_todo t) as [|[v|] rest]; reflexivity. }
+  { intros hh. unfold t'. destruct nxt as [p9|r9]; [reflexivity|]. destruct (t_todo t) as [|[v| | |d] rest]; reflexivity. }
   pose proof (DUP_set h' (thr c) (Z.to_nat tid) t t' Hi) as DS. rewrite Ht, Dt' in DS.
   set (T := thr c) in *. set (h := sh c) in *. set (i := Z.to_nat tid) in *. set (hs := Conc.hist c) in *.
   (* the part of HV/PCV that moves: new history values ++ pcv t' = pcv t (++ the value counted by this step) *)
@@ -279,20 +280,20 @@ Definition InvW (c : Conc.config LM) : Prop :=
 (* how a step moves between the claim classes *)
 Definition rdend (pc : npcL) : bool :=
   match pc with wRange _ _ false _ | wCellLoad _ _ false _ _ [] => true | _ => false end.
-Lemma trans_w1 h pc h' p cc : lstep h pc = Some (h', inl p) -> w1c p = Some cc ->
+Lemma trans_w1 h pc h' p cc : is_rpc pc = false -> lstep h pc = Some (h', inl p) -> w1c p = Some cc ->
   (w1c pc = Some cc /\ h' = h) \/
   (((pc = wFlip VC /\ cc = nh_hot VC h) \/ pc = xFlip VC KW cc) /\ forall X, gs h' X = gs h X).
 Proof.
-  intros Hs. destruct pc; stepin Hs; destr_in Hs; try discriminate Hs; inversion Hs; subst; clear Hs;
+  intros Hr Hs. destruct pc; try discriminate Hr; clear Hr; stepin Hs; destr_in Hs; try discriminate Hs; inversion Hs; subst; clear Hs;
     unfold m_next, m_added, e_next, w_next, after_cool, after_addreset; destr_goal; cbn [w1c]; intros E; try discriminate E;
     try (unfold m_next in E; destr_in E; discriminate E); destr_in E; try discriminate E;
     try (left; split; [exact E|reflexivity]);
     right; inversion E; (split; [|intros [|]; reflexivity]); [left; split; reflexivity|right; reflexivity].
 Qed.
-Lemma trans_ret h pc h' p out : lstep h pc = Some (h', inl p) -> retof p = Some (NOut VC out) ->
+Lemma trans_ret h pc h' p out : is_rpc pc = false -> lstep h pc = Some (h', inl p) -> retof p = Some (NOut VC out) ->
   retof pc = Some (NOut VC out) \/ (rdend pc = true /\ h' = h /\ exists c, p = aLoadCnt VC KW c (NOut VC out)).
 Proof.
-  intros Hs. destruct pc; stepin Hs; destr_in Hs; try discriminate Hs; inversion Hs; subst; clear Hs;
+  intros Hr Hs. destruct pc; try discriminate Hr; clear Hr; stepin Hs; destr_in Hs; try discriminate Hs; inversion Hs; subst; clear Hs;
     unfold m_next, m_added, e_next, w_next, after_cool, after_addreset; destr_goal; cbn [retof rdend]; intros E; try discriminate E;
     try (unfold m_next in E; destr_in E; cbn [retof] in E; try discriminate E; left; exact E);
     try (left; exact E); try (right; inversion E; split; [reflexivity|split; [reflexivity|eexists; reflexivity]]).
@@ -307,9 +308,9 @@ Proof. intros L. rewrite Done_app. unfold Done at 2. cbn [flat_map]. destruct (Z
 Lemma w1c_holds pc cc : w1c pc = Some cc -> holds pc = true. Proof. destruct pc; cbn; intros E; try discriminate E; reflexivity. Qed.
 Lemma retof_holds pc r : retof pc = Some r -> holds pc = true. Proof. destruct pc; cbn; intros E; try discriminate E; reflexivity. Qed.
 
-Lemma cnt_grow h pc h' nxt : holds pc = false -> lstep h pc = Some (h', nxt) -> forall X, exists ext, cntv (gs h' X) = cntv (gs h X) ++ ext.
+Lemma cnt_grow h pc h' nxt : is_rpc pc = false -> holds pc = false -> lstep h pc = Some (h', nxt) -> forall X, exists ext, cntv (gs h' X) = cntv (gs h X) ++ ext.
 Proof.
-  intros Hh Hs X. pose proof (cnt_step _ _ _ _ Hs) as CE. destruct pc; try discriminate Hh; cbn [cnt_eff] in CE;
+  intros Hr Hh Hs X. pose proof (cnt_step _ _ _ _ Hs Hr) as CE. destruct pc; try discriminate Hh; cbn [cnt_eff] in CE;
     try (destruct CE as [CS _]; exists []; rewrite CS, app_nil_r; reflexivity).
   destruct CE as (C1 & C2 & _). destruct (Bool.eqb_spec X b) as [->|N]; [exists [v]; exact C1|].
   assert (X = negb b) by (destruct X, b; cbn; congruence). subst X. exists []. rewrite C2, app_nil_r. reflexivity.
@@ -331,7 +332,7 @@ Proof.
       destruct (T1 t o pc inv (or_introl eq_refl) Ec) as [L1 L2].
       destruct (pvpc pc) eqn:Ep; [|exists (if inv <? now c then opv o else []); reflexivity].
       destruct (is_start o pc) eqn:Es.
-      - destruct o, pc; try discriminate Es; try discriminate Ep. cbn [opv]. destruct (inv <? now c); apply sub_refl.
+      - destruct o, pc; try discriminate Es; try discriminate Ep; cbn [opv]; destruct (inv <? now c); apply sub_refl.
       - specialize (L2 eq_refl). destruct (Z.ltb_spec inv (now c)); [apply sub_refl|lia]. }
     destruct S as [e1 P1]. exists (e1 ++ e). rewrite <- P1, <- IH. perm. }
   destruct B as [e P]. exists e. rewrite <- P. perm.
@@ -373,11 +374,11 @@ Proof.
   - apply (sub_perm E E (Ub c tau0) (Ub c' tau0)); [reflexivity|symmetry; apply (Ub_step c tid c' tau0 L St)|exact S2].
 Qed.
 
-Lemma InvW_step c tid c' : Inv c -> InvT c -> InvX c -> InvW c -> sched_step LM c tid = Some c' -> InvW c'.
+Lemma InvW_step c tid c' : NoR c -> Inv c -> InvT c -> InvX c -> InvW c -> sched_step LM c tid = Some c' -> InvW c'.
 Proof.
-  intros IV IT IX (W1 & W2) St. pose proof IT as (T1 & T2 & T3).
+  intros [_ NT] IV IT IX (W1 & W2) St. pose proof IT as (T1 & T2 & T3).
   destruct (sched_step_L2 c tid c' St) as (t & o & pc & inv & h' & nxt & Hi & Hc & Hs & Esh & En & Et & Eh).
-  pose proof (nth_error_In _ _ Hi) as Hin. destruct (T1 t o pc inv Hin Hc) as [Linv _].
+  pose proof (nth_error_In _ _ Hi) as Hin. destruct (T1 t o pc inv Hin Hc) as [Linv _]. pose proof (NT t o pc inv Hin Hc) as Hrpc.
   assert (DoneSt : forall tau, tau <= now c -> Done (Conc.hist c') tau = Done (Conc.hist c) tau).
   { intros tau L. rewrite Eh. destruct nxt as [p|r]; [rewrite app_nil_r; reflexivity|]. apply Done_snoc. cbn [c_res]. lia. }
   split.
@@ -387,7 +388,7 @@ Proof.
       destruct nxt as [p|r].
       2:{ destruct (next_thread_cur _ _ _ _ _ _ Hc2) as (_ & -> & _). destruct o2; split; intros ? E; discriminate E. }
       cbn [t_cur] in Hc2. inversion Hc2. subst o2 pc2 inv2. clear Hc2. destruct (W1 t o pc inv Hin Hc) as [WA WB]. split.
-      * intros cc Ecc. rewrite (DoneSt inv Linv), Esh. destruct (trans_w1 _ _ _ _ _ Hs Ecc) as [[Eo Ehh]|[Efl Egs]].
+      * intros cc Ecc. rewrite (DoneSt inv Linv), Esh. destruct (trans_w1 _ _ _ _ _ Hrpc Hs Ecc) as [[Eo Ehh]|[Efl Egs]].
         -- rewrite Ehh. apply (WA cc Eo).
         -- rewrite Egs.
            assert (Hh : holds pc = true) by (destruct Efl as [[-> _]| ->]; reflexivity).
@@ -403,7 +404,7 @@ Proof.
            apply (sub_trans _ (HV (Conc.hist c))); [apply Done_sub_HV|].
            subst cc. destruct (nh_hot VC (sh c)); cbn [negb] in E1; rewrite E1 in IX; rewrite ?app_nil_r in IX; cbn [app] in IX;
              (apply (sub_perm (HV (Conc.hist c)) (HV (Conc.hist c)) (HV (Conc.hist c) ++ PCV (thr c)) _); [reflexivity|symmetry; exact IX|apply sub_self_app]).
-      * intros out Eout. destruct (trans_ret _ _ _ _ _ Hs Eout) as [Eo|(Er & Ehh & c0 & Ep)].
+      * intros out Eout. destruct (trans_ret _ _ _ _ _ Hrpc Hs Eout) as [Eo|(Er & Ehh & c0 & Ep)].
         -- apply (sand_step c tid c' inv out IT Linv St (WB out Eo)).
         -- subst p h'.
            assert (Hh : holds pc = true) by (destruct pc; try discriminate Er; reflexivity).
@@ -426,7 +427,7 @@ Proof.
         assert (Hh : holds pc = false).
         { destruct (holds pc) eqn:E; [|reflexivity]. exfalso. apply Nj. symmetry.
           apply (holder_unique c _ _ t t2 o pc inv o2 pc2 inv2 IV Hi Hc E Hj' Hc2 (w1c_holds _ _ Ecc)). }
-        destruct (cnt_grow _ _ _ _ Hh Hs cc) as [ext Ex]. rewrite Ex. apply sub_app_r. apply (WA cc Ecc).
+        destruct (cnt_grow _ _ _ _ Hrpc Hh Hs cc) as [ext Ex]. rewrite Ex. apply sub_app_r. apply (WA cc Ecc).
       * intros out Eout. apply (sand_step c tid c' inv2 out IT L2 St (WB out Eout)).
   - intros w out Hw Er. rewrite Eh in Hw. apply in_app_or in Hw. destruct Hw as [Hw|Hw].
     + destruct (W2 w out Hw Er) as (E & G & S1 & S2). destruct (T2 w Hw) as [La Lb].
@@ -457,7 +458,7 @@ Proof.
     cbn [now init_config]. split; [lia|intros E; congruence].
   - rewrite init_hist. intros k [].
   - intros t o pc inv Hin Hc. destruct (init_threads _ _ _ Hin) as [todo ->]. destruct (next_thread_cur _ _ _ _ _ _ Hc) as (_ & -> & _).
-    destruct o; [right|left]; reflexivity.
+    destruct o; [right|left|left|left]; reflexivity.
 Qed.
 Lemma InvX_init g progs : InvX (init_config LM (linit g) progs).
 Proof.
@@ -465,7 +466,7 @@ Proof.
   assert (A : PCV (thr (init_config LM (linit g) progs)) = []).
   { apply concat_all_nil. intros t Ht. destruct (init_threads _ _ _ Ht) as [todo ->]. apply pcv_next. }
   assert (B : DUP (sh (init_config LM (linit g) progs)) (thr (init_config LM (linit g) progs)) = []).
-  { apply concat_all_nil. intros t Ht. destruct (init_threads _ _ _ Ht) as [todo ->]. destruct todo as [|[v|] rest]; reflexivity. }
+  { apply concat_all_nil. intros t Ht. destruct (init_threads _ _ _ Ht) as [todo ->]. destruct todo as [|[v| | |d] rest]; reflexivity. }
   rewrite A, B. reflexivity.
 Qed.
 Lemma InvW_init s0 progs : InvW (init_config LM s0 progs).
@@ -476,31 +477,36 @@ Proof.
   - rewrite init_hist. intros w out [].
 Qed.
 
-Lemma rt_reachable g progs sched : let c := run_sched LM (init_config LM (linit g) progs) sched in Inv c /\ InvT c /\ InvX c /\ InvW c.
+Lemma rt_reachable g progs sched : g_min_reset g = 0 ->
+  let c := run_sched LM (init_config LM (linit g) progs) sched in Inv c /\ InvT c /\ InvX c /\ InvW c.
 Proof.
-  apply (run_sched_ind LM (fun c => Inv c /\ InvT c /\ InvX c /\ InvW c)).
-  - intros c tid c' (A & B & C & D) St. split; [exact (Inv_step c tid c' A St)|split; [exact (InvT_step c tid c' B St)|split;
-      [exact (InvX_step c tid c' A B C St)|exact (InvW_step c tid c' A B C D St)]]].
-  - split; [apply Inv_init|split; [apply InvT_init|split; [apply InvX_init|apply InvW_init]]].
+  intros G0. cbv zeta.
+  assert (H : NoR (run_sched LM (init_config LM (linit g) progs) sched) /\
+              (fun c => Inv c /\ InvT c /\ InvX c /\ InvW c) (run_sched LM (init_config LM (linit g) progs) sched)).
+  { apply (run_sched_ind LM (fun c => NoR c /\ (Inv c /\ InvT c /\ InvX c /\ InvW c))).
+    - intros c tid c' (N & A & B & C & D) St. split; [exact (NoR_step c tid c' N St)|]. split; [exact (Inv_step c tid c' A St)|split; [exact (InvT_step c tid c' N B St)|split;
+        [exact (InvX_step c tid c' N A B C St)|exact (InvW_step c tid c' N A B C D St)]]].
+    - split; [apply NoR_init; exact G0|]. split; [apply Inv_init|split; [apply InvT_init|split; [apply InvX_init|apply InvW_init]]]. }
+  apply H.
 Qed.
 
 (* THE REAL-TIME SANDWICH: every completed Write w counted a multiset E of observed values with
    (values of the Observe calls that had returned when w was invoked) <= E <= (values of the Observe calls invoked before w returned) *)
-Lemma rt_sandwich_L g progs sched : let c := run_sched LM (init_config LM (linit g) progs) sched in
+Lemma rt_sandwich_L g progs sched : g_min_reset g = 0 -> let c := run_sched LM (init_config LM (linit g) progs) sched in
   forall w out, In w (Conc.hist c) -> c_ret w = NOut VC out ->
   exists E, goodE out E /\ sub (Done (Conc.hist c) (c_inv w)) E /\ sub E (Ub c (c_res w)).
-Proof. intros c w out Hw Er. destruct (rt_reachable g progs sched) as (_ & _ & _ & (_ & W2)). apply (W2 w out Hw Er). Qed.
+Proof. intros G0 c w out Hw Er. destruct (rt_reachable g progs sched G0) as (_ & _ & _ & (_ & W2)). apply (W2 w out Hw Er). Qed.
 
 Lemma Ub_all_done c tau : all_done LM c = true -> Ub c tau = HVb (Conc.hist c) tau.
 Proof.
   intros Hd. unfold Ub. assert (E : CVb (thr c) tau = []); [|rewrite E, app_nil_r; reflexivity].
   apply concat_all_nil. intros t Ht. pose proof (all_done_cur c Hd t Ht) as A. unfold tpc in A. unfold cvb. destruct (t_cur t) as [[[? ?] ?]|]; [discriminate A|reflexivity].
 Qed.
-Lemma rt_sandwich_done_L g progs sched : let c := run_sched LM (init_config LM (linit g) progs) sched in
+Lemma rt_sandwich_done_L g progs sched : g_min_reset g = 0 -> let c := run_sched LM (init_config LM (linit g) progs) sched in
   all_done LM c = true ->
   forall w out, In w (Conc.hist c) -> c_ret w = NOut VC out ->
   exists E, goodE out E /\ sub (Done (Conc.hist c) (c_inv w)) E /\ sub E (HVb (Conc.hist c) (c_res w)).
 Proof.
-  intros c Hd w out Hw Er. destruct (rt_sandwich_L g progs sched w out Hw Er) as (E & G & S1 & S2). fold c in S1, S2.
+  intros G0 c Hd w out Hw Er. destruct (rt_sandwich_L g progs sched G0 w out Hw Er) as (E & G & S1 & S2). fold c in S1, S2.
   exists E. rewrite (Ub_all_done c _ Hd) in S2. auto.
 Qed.
